@@ -166,32 +166,64 @@ func hostileTargets(depth int, rng *rand.Rand, rev int) []hTarget {
 			} else {
 				panic("hostile: payload of " + k.Name() + " is not the tail of its block")
 			}
-			ts = append(ts, hTarget{id: "typed:" + k.Name(), kind: "typed", rev: rev, base: base, asts: asts, names: []string{"c"}, rows: rows, fields: fields,
-				run: func(data []byte) hOutcome {
-					t := k.New()
-					var blk proto.Block
-					r := proto.NewReader(bytes.NewReader(data))
-					if err := blk.DecodeBlock(r, rev, proto.Results{{Name: "c", Data: t.Column()}}); err != nil {
-						return hOutcome{err: err.Error()}
-					}
-					out := hOutcome{rows: blk.Rows}
-					if t.Column().Rows() != blk.Rows {
-						out.inconsistent = fmt.Sprintf("the block has %d rows, the column reports %d", blk.Rows, t.Column().Rows())
-						return out
-					}
-					vals := make([]any, 0, blk.Rows)
-					if blk.Rows <= 1000 {
-						for i := 0; i < blk.Rows; i++ {
-							vals = append(vals, t.Row(i))
-						}
-					} else {
-						_ = t.Row(0)
-						_ = t.Row(blk.Rows - 1)
-						_ = t.Row(blk.Rows / 2)
-					}
-					out.cols = []any{vals}
+			typedRun := func(data []byte) hOutcome {
+				t := k.New()
+				var blk proto.Block
+				r := proto.NewReader(bytes.NewReader(data))
+				if err := blk.DecodeBlock(r, rev, proto.Results{{Name: "c", Data: t.Column()}}); err != nil {
+					return hOutcome{err: err.Error()}
+				}
+				out := hOutcome{rows: blk.Rows}
+				if t.Column().Rows() != blk.Rows {
+					out.inconsistent = fmt.Sprintf("the block has %d rows, the column reports %d", blk.Rows, t.Column().Rows())
 					return out
-				}})
+				}
+				vals := make([]any, 0, blk.Rows)
+				if blk.Rows <= 1000 {
+					for i := 0; i < blk.Rows; i++ {
+						vals = append(vals, t.Row(i))
+					}
+				} else {
+					_ = t.Row(0)
+					_ = t.Row(blk.Rows - 1)
+					_ = t.Row(blk.Rows / 2)
+				}
+				out.cols = []any{vals}
+				return out
+			}
+			ts = append(ts, hTarget{id: "typed:" + k.Name(), kind: "typed", rev: rev, base: base, asts: asts, names: []string{"c"}, rows: rows, fields: fields, run: typedRun})
+			// the decoder accepts LowCardinality keys of every width, the library's encoder only emits the narrowest:
+			// valid encodings with 2-, 4- and 8-byte keys are derived from the encoder's output and mutated as well
+			if k.AST()["k"] == "lc" && rows > 0 && len(fields) >= 2 {
+				pDn, pKn := fields[0], fields[len(fields)-1]
+				meta := pDn - 8
+				w0 := 1 << uint(base[meta]&3)
+				for code := 1; code <= 3; code++ {
+					if 1<<uint(code) == w0 {
+						continue
+					}
+					wide := append([]byte(nil), base[:pKn+8]...)
+					wide[meta] = wide[meta]&^3 | byte(code)
+					for i := 0; i < rows; i++ {
+						var key uint64
+						for j := 0; j < w0; j++ {
+							key |= uint64(base[pKn+8+i*w0+j]) << (8 * uint(j))
+						}
+						var kb [8]byte
+						binary.LittleEndian.PutUint64(kb[:], key)
+						wide = append(wide, kb[:1<<uint(code)]...)
+					}
+					if oc := typedRun(wide); oc.err != "" || oc.inconsistent != "" {
+						panic(fmt.Sprintf("hostile: the %d-byte-key variant of %s is not accepted: %s %s", 1<<uint(code), k.Name(), oc.err, oc.inconsistent))
+					}
+					var wf []int
+					if end, ok := countFields(k.AST(), rows, wide, meta, &wf); !ok || end != len(wide) {
+						wf = nil
+					}
+					ts = append(ts, hTarget{id: fmt.Sprintf("typed:%s#keys%d", k.Name(), 8<<uint(code)), kind: "typed", rev: rev, base: wide, asts: asts, names: []string{"c"}, rows: rows,
+						fields: wf, run: typedRun})
+				}
+			}
 			if ki%3 == 0 {
 				ts = append(ts, hTarget{id: "auto:" + k.Name(), kind: "auto", rev: rev, base: base, asts: asts, names: []string{"c"}, rows: rows, fields: fields,
 					run: func(data []byte) hOutcome {
